@@ -87,6 +87,10 @@ def run_case(c, pid):
       obs[name] = r.get('out', r.get('err'))
     out['observation'] = obs
     out['base_out'] = base
+    # capture_intermediates with the caller's own `mutable`: flax adds 'intermediates' itself; everything but that collection is as in the base run
+    rc = L.run_apply(m, variables, x, c['streams'], mutable, capture_intermediates=True) if mutable is not False else {'out': base, 'vars': runs[0].get('vars')}
+    strip = lambda r: {k: v for k, v in (r.get('vars') or {}).items() if k != 'intermediates'}
+    out['capture_native'] = {'out_same': rc.get('out') == base, 'err': rc.get('err'), 'state_same': strip(rc) == strip(runs[0])}
   return out
 
 
@@ -143,7 +147,88 @@ def dict_valued(c):
   return out
 
 
+def bound_case(c):
+  """init / apply on (or with) modules that are already bound: the result is a function of the variables passed in, the bound instance and its
+  variable store stay as they were"""
+  import flax
+  import flax.linen as nn
+  from typing import Any
+  I = jnp.int64
+
+  class Enc(nn.Module):
+    count: bool = False
+    w: int = 2
+
+    @nn.compact
+    def __call__(self, x):
+      k = self.param('k', lambda key: jnp.asarray(self.w, dtype=I))
+      if self.count:
+        n = self.variable('counter', 'n', lambda: jnp.asarray(0, dtype=I))
+        if not self.is_initializing():
+          n.value = n.value + 1
+      return x * k + 1
+
+  class Wrap(nn.Module):
+    enc: Any = None
+
+    @nn.compact
+    def __call__(self, x):
+      h = self.param('h', lambda key: jnp.asarray(3, dtype=I))
+      y = self.enc(x)
+      for _ in range(c['inner_calls'] - 1):
+        y = self.enc(y)
+      return y * h
+  canon = lambda t: jax.tree_util.tree_map(lambda a: int(a), flax.core.unfreeze(t))
+  x = jnp.asarray(c['x'], dtype=I)
+  out = {}
+  model = Wrap(Enc(count=c['count'], w=c['w']))
+  v1 = model.init(jax.random.key(0), x)
+  v2 = jax.tree_util.tree_map(lambda a: a * 2 + 1, v1)
+  v1s, v2s = canon(v1), canon(v2)
+  mut = ['counter'] if c['count'] else False
+  run = lambda mod, v: (lambda r: [int(r[0]), canon(r[1])] if mut else [int(r), None])(mod.apply(v, x, mutable=mut))
+  bound = model.bind(v1, mutable=mut)
+  out['A_apply'] = run(bound, v2) == run(model, v2)
+  out['A_repeat'] = run(bound, v2) == run(bound, v2)
+  out['A_init'] = canon(bound.init(jax.random.key(3), x)) == canon(model.init(jax.random.key(3), x))
+  out['A_bound_still_v1'] = int(bound(x)) == run(model, v1)[0] if not c['count'] else True
+  if c['count']:
+    live = model.bind(v1, mutable=['counter'])
+    store = canon(live.variables)
+    try:
+      live.apply(v1, x)
+      out['B_raises'] = False
+    except flax.errors.ModifyScopeVariableError:
+      out['B_raises'] = True
+    out['B_store_untouched'] = canon(live.variables) == store
+  enc = Enc(count=False, w=c['w'])
+  ev = enc.init(jax.random.key(5), x)
+  be = enc.bind(ev)
+  before = int(be(x))
+  ident = (be.name, be.scope, be.parent, be._id)
+  outer, twin = Wrap(be), Wrap(Enc(count=False, w=c['w']))
+  out['C_init'] = canon(outer.init(jax.random.key(6), x)) == canon(twin.init(jax.random.key(6), x))
+  vv = jax.tree_util.tree_map(lambda a: a + 4, twin.init(jax.random.key(6), x))
+  out['C_apply'] = int(outer.apply(vv, x)) == int(twin.apply(vv, x))
+  out['C_field_untouched'] = all(a is b for a, b in zip(ident, (be.name, be.scope, be.parent, be._id)))
+  try:
+    out['C_field_same_output'] = int(be(x)) == before
+  except Exception:  # pylint: disable=broad-except
+    out['C_field_same_output'] = False
+  out['inputs_untouched'] = canon(v1) == v1s and canon(v2) == v2s
+  return out
+
+
 def main(payload):
+  if 'bound' in payload:
+    res = []
+    for c in payload['bound']:
+      try:
+        res.append({'ok': bound_case(c)})
+      except Exception as e:  # pylint: disable=broad-except
+        import traceback
+        res.append({'err': type(e).__name__, 'tb': traceback.format_exc()[-900:]})
+    return {'bound': res}
   if 'dict_valued' in payload:
     res = []
     for c in payload['dict_valued']:
